@@ -293,15 +293,23 @@ def suffix_of(fname, target):
     return m.group(1) if m else None
 
 
-def run_split_case(target, kind, sl, limit, N, mode, tmp, desc):
+def run_split_case(target, kind, sl, limit, N, mode, tmp, desc, urlform="abs"):
+    """urlform: how the target is spelled -- "abs" split://<absolute path>, "rel" split://<file name> (relative to the
+    working directory), "sub-abs" / "sub-rel" the same with the sub-adapter named in the scheme (split+jsonfile://...)"""
     from flow.record import RecordReader, RecordWriter
 
     for f in glob.glob(os.path.join(tmp, "*")):
         os.remove(f)
     c = {"target": target, "limit": limit, "sl": sl, "n": N, "mode": mode, "raised": False, "exc": "none", "parts": [], "suffix": [], "all_readable": True,
          "rawcat_checked": False, "rawcat": [], "indep": [], "zero_byte_parts": []}
+    sub = {"stream": "stream", "streamgz": "stream", "json": "jsonfile", "avro": "avro"}[kind]
+    scheme = "split://" if urlform in ("abs", "rel") else f"split+{sub}://"
+    where = os.path.join(tmp, target) if urlform.endswith("abs") else target
+    cwd = os.getcwd()
     try:
-        w = RecordWriter(f"split://{os.path.join(tmp, target)}?count={limit}&suffix-length={sl}")
+        if urlform.endswith("rel"):
+            os.chdir(tmp)
+        w = RecordWriter(f"{scheme}{where}?count={limit}&suffix-length={sl}")
         for i in range(1, N + 1):
             w.write(desc(i, "v", _generated=gen.GEN))
         if mode == "exit":
@@ -316,6 +324,9 @@ def run_split_case(target, kind, sl, limit, N, mode, tmp, desc):
             w.close()
     except Exception as e:
         c["raised"], c["exc"] = True, type(e).__name__ + ":" + str(e)[:80]
+    finally:
+        os.chdir(cwd)
+    c["urlform"] = urlform
     names = []
     for f in os.listdir(tmp):
         sfx = suffix_of(f, target)
@@ -378,6 +389,12 @@ def split_part(ctx, thorough):
                             continue
                         cases.append(run_split_case(target, kind, sl, limit, N, mode, tmp, desc))
                         ctx.case(("split", target, sl, limit, N, mode))
+                        if mode == "exit" and sl == 2 and limit in (2, 3) and (thorough or N in (0, 3, 7)):
+                            for urlform in ("rel", "sub-abs", "sub-rel"):
+                                if target == "out" and urlform.startswith("sub"):
+                                    continue
+                                cases.append(run_split_case(target, kind, sl, limit, N, mode, tmp, desc, urlform))
+                                ctx.case(("split", target, sl, limit, N, mode, urlform))
     if thorough:
         for N, limit in ((200, 50), (201, 50), (199, 50), (1000, 999), (1000, 1000), (1001, 1000)):
             cases.append(run_split_case("out.records", "stream", 2, limit, N, "exit", tmp, desc))
@@ -402,7 +419,7 @@ def split_part(ctx, thorough):
             if c["zero_byte_parts"] == [nparts - 1] and others_ok and not c["raised"] and c["parts"][-1] == []:
                 reason = "last_part_zero_bytes"
             ctx.violation({"part": "split", "check": "Contract", "mode": c["mode"], "kind": SPLIT_TARGETS[c["target"]], "reason": reason,
-                           "n_mod_limit_is_zero": c["n"] % c["limit"] == 0, **({} if reason == "last_part_zero_bytes" else {"limit": c["limit"], "n": c["n"], "sl": c["sl"], "target": c["target"]})}, {"case": c})
+                           "n_mod_limit_is_zero": c["n"] % c["limit"] == 0, **({} if reason == "last_part_zero_bytes" else {"limit": c["limit"], "n": c["n"], "sl": c["sl"], "target": c["target"], "urlform": c.get("urlform", "abs")})}, {"case": c})
         else:
             drift += 1
     if drift:
